@@ -21,11 +21,7 @@ Theorem C09_window_closed_between : forall sha256 hmac s1 now1 r1 n t1 h now2 r2
   let s1' := fst (step sha256 hmac s1 (EReq now1 r1)) in
   admit_of (run sha256 hmac s1' h) now2 r2 = Some (n, t2) ->
   exists k tolk, In (k, tolk) (checkpoints sha256 hmac s1' (h ++ [EReq now2 r2])) /\ t1 + tolk < k.
-Proof.
-  intros sha256 hmac s1 now1 r1 n t1 h now2 r2 t2 A1 s1' A2.
-  exact (window_closed_between sha256 hmac s1' n t1 h now2 r2 t2
-           (admitted_remembered sha256 hmac s1 now1 r1 n t1 A1) A2).
-Qed.
+Proof. exact window_closed_between_admitted. Qed.
 
 (** no_double_accept.  Clock readings non-decreasing in lock order (the reading is taken under the
     mutex), tolerance in force at the second admission not larger than the tolerance in force at any
@@ -98,7 +94,16 @@ Theorem C09_tolerance_grown_refuted : forall sha256 hmac,
   admit_of (run sha256 hmac s1' h) now2 r = Some ([110;49]%N, 1000 * sec).
 Proof. exact tolerance_grown_refuted. Qed.
 
+(** The executable predicate the check evaluates on the implementation's trace of acceptances means:
+    a nonce is accepted again only after the earlier request's window was over. *)
+Theorem C09_P_C09_spec : forall tr,
+  P_C09 tr = true <->
+  forall pre a mid b post, tr = pre ++ a :: mid ++ b :: post ->
+    ac_nonce a = ac_nonce b -> ac_signed a + ac_tol b < ac_now b.
+Proof. exact P_C09_spec. Qed.
+
 Print Assumptions C09_window_closed_between.
+Print Assumptions C09_P_C09_spec.
 Print Assumptions C09_no_double_accept.
 Print Assumptions C09_replay_never_twice.
 Print Assumptions C09_accepted_is_admitted.
